@@ -15,22 +15,22 @@ Proof.
   - rewrite IH, <- app_assoc. reflexivity.
 Qed.
 
-Theorem pipeline_frames : forall t0 (input : list N) (k : nat) (live : nat -> bool) cap0 cap1 caps,
+Theorem pipeline_frames : forall t0 (input : list N) (k : nat) (live sync : nat -> bool) cap0 cap1 caps,
   (1 <= cap0)%nat -> (1 <= cap1)%nat -> length caps = k -> Forall (fun c => (1 <= c)%nat) caps ->
   exists ms h', handle_stream (new_handler t0) input = Ok (ms, h') /\
   exists n, forall m c,
-    steps _ (nstep _ _ _ (Pipe.prog N msg (list N) (fun acc b => (acc ++ [b], [])) (frame_flush t0) k live)
+    steps _ (nstep _ _ _ (Pipe.prog N msg (list N) (fun acc b => (acc ++ [b], [])) (frame_flush t0) k live sync)
                    Pipe.sender Pipe.receiver (SkDone _ _ _)) m
           (Pipe.init N msg (list N) k cap0 cap1 caps input []) c ->
     (m <= n)%nat /\
-    (final_config _ _ _ (Pipe.prog N msg (list N) (fun acc b => (acc ++ [b], [])) (frame_flush t0) k live)
+    (final_config _ _ _ (Pipe.prog N msg (list N) (fun acc b => (acc ++ [b], [])) (frame_flush t0) k live sync)
                   Pipe.sender Pipe.receiver (SkDone _ _ _) c ->
      forall i, (i < k)%nat -> sink_out N msg (list N) c i = if live i then ms else []).
 Proof.
-  intros t0 input k live cap0 cap1 caps H0 H1 Hl Hc.
+  intros t0 input k live sync cap0 cap1 caps H0 H1 Hl Hc.
   destruct (handle_stream_lossless (new_handler t0) input) as (ms & h' & Hms & _).
   exists ms, h'. split; [exact Hms|].
-  destruct (pipeline_every_schedule N msg (list N) (fun acc b => (acc ++ [b], [])) (frame_flush t0) k live
+  destruct (pipeline_every_schedule N msg (list N) (fun acc b => (acc ++ [b], [])) (frame_flush t0) k live sync
               cap0 cap1 caps input [] H0 H1 Hl Hc) as [n Hn].
   exists n. intros m c Hm. destruct (Hn m c Hm) as (Hle & _ & Hfin).
   split; [exact Hle|]. intros Hf i Hi. rewrite (Hfin Hf).
@@ -44,23 +44,23 @@ Qed.
    bytes concatenate to the input, none empty, the framer halted and the message channel
    closed (the framer's program closes it at one point only, and a second close would leave
    the process blocked instead of halted). *)
-Theorem lossless_every_schedule : forall t0 (input : list N) cap0 cap1 capc,
+Theorem lossless_every_schedule : forall t0 (input : list N) (sync : nat -> bool) cap0 cap1 capc,
   (1 <= cap0)%nat -> (1 <= cap1)%nat -> (1 <= capc)%nat ->
   exists n, forall m c,
-    steps _ (nstep _ _ _ (Pipe.prog N msg (list N) (fun acc b => (acc ++ [b], [])) (frame_flush t0) 1 (fun _ => true))
+    steps _ (nstep _ _ _ (Pipe.prog N msg (list N) (fun acc b => (acc ++ [b], [])) (frame_flush t0) 1 (fun _ => true) sync)
                    Pipe.sender Pipe.receiver (SkDone _ _ _)) m
           (Pipe.init N msg (list N) 1 cap0 cap1 [capc] input []) c ->
     (m <= n)%nat /\
-    (final_config _ _ _ (Pipe.prog N msg (list N) (fun acc b => (acc ++ [b], [])) (frame_flush t0) 1 (fun _ => true))
+    (final_config _ _ _ (Pipe.prog N msg (list N) (fun acc b => (acc ++ [b], [])) (frame_flush t0) 1 (fun _ => true) sync)
                   Pipe.sender Pipe.receiver (SkDone _ _ _) c ->
      concat (map raw (sink_out N msg (list N) c 0)) = input /\
      Forall (fun x => raw x <> []) (sink_out N msg (list N) c 0) /\
-     halted N msg (list N) (fun acc b => (acc ++ [b], [])) (frame_flush t0) 1 (fun _ => true) c 1 /\
+     halted N msg (list N) (fun acc b => (acc ++ [b], [])) (frame_flush t0) 1 (fun _ => true) sync c 1 /\
      closed (nth 1 (chans c) (dchan _)) = true).
 Proof.
-  intros t0 input cap0 cap1 capc H0 H1 Hc.
+  intros t0 input sync cap0 cap1 capc H0 H1 Hc.
   destruct (handle_stream_lossless (new_handler t0) input) as (ms & h' & Hms & Hcat & Hne & _).
-  destruct (pipeline_every_schedule N msg (list N) (fun acc b => (acc ++ [b], [])) (frame_flush t0) 1 (fun _ => true)
+  destruct (pipeline_every_schedule N msg (list N) (fun acc b => (acc ++ [b], [])) (frame_flush t0) 1 (fun _ => true) sync
               cap0 cap1 [capc] input [] H0 H1 eq_refl (Forall_cons _ Hc (Forall_nil _))) as [n Hn].
   exists n. intros m c Hm. destruct (Hn m c Hm) as (Hle & _ & Hfin).
   split; [exact Hle|]. intros Hf. rewrite (Hfin Hf).
